@@ -429,3 +429,10 @@ func rtAuth(p, q *Auth) error {
 	}
 	return q.UnmarshalBinary(buf[1+rl.width():])
 }
+
+// decConnect decodes a CONNECT frame body into q; its contract (contracts_verif.go) is stated under the premise
+// that the protocol name has the four bytes MQTT v5.0 prescribes, that the CONNECT property section is empty and
+// that there is no will message, which fixes where the payload starts.
+func decConnect(q *Connect, data []byte) error {
+	return q.UnmarshalBinary(data)
+}
